@@ -5,7 +5,7 @@ only-base oracle) and `c15repo` (raw diff-tree scanner through the output seam, 
 try_fast_path_* decisions on a scratch repository vs model and vs an independent recomputation);
 end-to-end TWIN runs: every generated rebase / cherry-pick history is executed twice from
 identical snapshots, once normally and once with GIT_AI_VERIF_NO_FAST_PATH=1, and the notes of the
-rewritten commits are compared under `≈` and under blame-equivalence.  Since /repo adc259f3 full replay
+rewritten commits are compared under `≈` and under blame-equivalence.  Since /repo fb18b9e3 full replay
 writes per-commit notes (O14 repaired): any difference under `≈` is a violation.
 """
 import concurrent.futures, json, os, random, shutil, time
@@ -482,8 +482,8 @@ def judge(res, obs, driver_reqs):
         if not took:
             res.oracle_failure("twin-notes-differ-without-shortcut", w2, "both twins replayed, yet the notes differ")
             continue
-        # (the families "replay writes cumulative notes" — O14, repaired in /repo by adc259f3 — and "replay credits a
-        #  line that a later commit of the range rewrote" — repaired by 3d512cdb + 5c3b3e4a — are no longer classified:
+        # (the families "replay writes cumulative notes" — O14, repaired in /repo by fb18b9e3 — and "replay credits a
+        #  line that a later commit of the range rewrote" — repaired by 13fa6d80 + f7e364fb — are no longer classified:
         #  a return is reported as a violation; `shape` only names what the difference looks like)
         cum_k = set(map(tuple, obs["ghost_cum"][k])) if k < len(obs["ghost_cum"]) else set()
         shape = "other"
